@@ -82,10 +82,10 @@ Definition text_node (pieces : list bytes) (start : nat) : list tchunk :=
 End TD.
 
 (* ---------------- a concrete UTF-8 streaming decoder (WHATWG "UTF-8 decoder") for the correspondence run ---------------- *)
-(* state: the bytes of an incomplete sequence seen so far (at most 3) *)
+(* a Mealy machine over bytes; state = the bytes of an incomplete sequence seen so far (at most 3) *)
 Definition u8state := bytes.
 Definition REPL : bytes := [239; 191; 189]%N.     (* U+FFFD *)
-(* expected continuation range of the next byte given the lead/seen bytes; None = sequence complete or not started *)
+(* expected continuation range of the next byte given the lead/seen bytes; None = no sequence in progress *)
 Definition u8_need (seen : bytes) : option (nat * N * N) :=   (* total length, lower, upper bound for the next byte *)
   match seen with
   | [l] => if ((194 <=? l) && (l <=? 223))%N then Some (2, 128%N, 191%N)
@@ -100,67 +100,49 @@ Definition u8_need (seen : bytes) : option (nat * N * N) :=   (* total length, l
   | [] => None
   end.
 Definition is_lead (b : N) : bool := ((194 <=? b) && (b <=? 244))%N.
-(* decode with an output budget; returns (input empty?, bytes read, output, state) *)
-Fixpoint u8_run (fuel : nat) (seen : bytes) (inp : bytes) (cap : nat) (last : bool) (read : nat) (out : bytes) : bool * nat * bytes * u8state :=
-  match fuel with
-  | O => (false, read, out, seen)
-  | S f =>
-      if cap <? length out + 4 then
-        (* encoding_rs wants room for the longest character before it goes on *)
-        match inp, seen with
-        | [], [] => (true, read, out, seen)
-        | _, _ => (false, read, out, seen)
-        end
-      else
-      match inp with
-      | [] =>
-          if last then match seen with [] => (true, read, out, []) | _ => (true, read, out ++ REPL, []) end
-          else (true, read, out, seen)
-      | b :: rest =>
-          match seen with
-          | [] =>
-              if (b <? 128)%N then u8_run f [] rest cap last (S read) (out ++ [b])
-              else if is_lead b then u8_run f [b] rest cap last (S read) out
-              else u8_run f [] rest cap last (S read) (out ++ REPL)
-          | _ =>
-              match u8_need seen with
-              | Some (total, lo, hi) =>
-                  if ((lo <=? b) && (b <=? hi))%N then
-                    if S (length seen) =? total then u8_run f [] rest cap last (S read) (out ++ seen ++ [b])
-                    else u8_run f (seen ++ [b]) rest cap last (S read) out
-                  else (* malformed: one U+FFFD for the broken sequence, the byte is looked at again *)
-                    u8_run f [] inp cap last read (out ++ REPL)
-              | None => u8_run f [] inp cap last read (out ++ REPL)
-              end
-          end
+(* a byte met with nothing pending: (new state, output, malformed?) *)
+Definition u8_start (b : N) : u8state * bytes * bool :=
+  if (b <? 128)%N then ([], [b], false) else if is_lead b then ([b], [], false) else ([], REPL, true).
+(* one byte: a malformed sequence in progress becomes one U+FFFD and the byte is looked at afresh *)
+Definition u8_step (s : u8state) (b : N) : u8state * bytes * bool :=
+  match s with
+  | [] => u8_start b
+  | _ =>
+      match u8_need s with
+      | Some (total, lo, hi) =>
+          if ((lo <=? b) && (b <=? hi))%N then
+            (if S (length s) =? total then ([], s ++ [b], false) else (s ++ [b], [], false))
+          else let '(s', o, _) := u8_start b in (s', REPL ++ o, true)
+      | None => let '(s', o, _) := u8_start b in (s', REPL ++ o, true)
       end
+  end.
+Fixpoint u8_run (s : u8state) (inp : bytes) : bytes * u8state :=
+  match inp with
+  | [] => ([], s)
+  | b :: r => let '(s1, o1, _) := u8_step s b in let (o2, s2) := u8_run s1 r in (o1 ++ o2, s2)
+  end.
+Definition u8_fin (s : u8state) : bytes := match s with [] => [] | _ => REPL end.
+(* whole-buffer decode *)
+Definition u8_whole (x : bytes) : bytes := let (o, s) := u8_run [] x in o ++ u8_fin s.
+
+(* decode_to_str: as much of the input as fits while the output buffer has room for the longest character *)
+Fixpoint u8_go (s : u8state) (inp : bytes) (cap : nat) (read : nat) (out : bytes) : bool * nat * bytes * u8state :=
+  match inp with
+  | [] => (true, read, out, s)
+  | b :: r => if cap <? length out + 4 then (false, read, out, s)
+              else let '(s1, o1, _) := u8_step s b in u8_go s1 r cap (S read) (out ++ o1)
   end.
 Definition u8_decode (st : u8state) (inp : bytes) (cap : nat) (last : bool) : bool * nat * bytes * u8state :=
-  u8_run (2 * length inp + 8) st inp cap last 0 [].
-(* from_utf8(..).valid_up_to() *)
-Fixpoint u8_valid_up_to_aux (fuel : nat) (inp : bytes) (seen : bytes) (ok : nat) (pos : nat) : nat :=
-  match fuel with
-  | O => ok
-  | S f =>
-      match inp with
-      | [] => ok
-      | b :: rest =>
-          match seen with
-          | [] => if (b <? 128)%N then u8_valid_up_to_aux f rest [] (S pos) (S pos)
-                  else if is_lead b then u8_valid_up_to_aux f rest [b] ok (S pos)
-                  else ok
-          | _ => match u8_need seen with
-                 | Some (total, lo, hi) =>
-                     if ((lo <=? b) && (b <=? hi))%N then
-                       if S (length seen) =? total then u8_valid_up_to_aux f rest [] (S pos) (S pos)
-                       else u8_valid_up_to_aux f rest (seen ++ [b]) ok (S pos)
-                     else ok
-                 | None => ok
-                 end
-          end
-      end
+  let '(fin, read, out, s') := u8_go st inp cap 0 [] in
+  if fin && last then (true, read, out ++ u8_fin s', []) else (fin, read, out, s').
+(* from_utf8(..).valid_up_to(): the end of the last complete, well-formed character before the first error *)
+Fixpoint u8_vup (s : u8state) (inp : bytes) (pos ok : nat) : nat :=
+  match inp with
+  | [] => ok
+  | b :: r => let '(s1, _, bad) := u8_step s b in
+              if bad then ok else u8_vup s1 r (S pos) (match s1 with [] => S pos | _ => ok end)
   end.
-Definition u8_valid_up_to (inp : bytes) : nat := u8_valid_up_to_aux (S (length inp)) inp [] 0 0.
+Definition u8_valid_up_to (inp : bytes) : nat := u8_vup [] inp 0 0.
 
 Definition utf8_text_node (pieces : list bytes) (start : nat) : list tchunk :=
   text_node u8state [] u8_decode u8_valid_up_to pieces start.
